@@ -100,7 +100,7 @@ impl Stringify for Template {
             stringifier.write_str(r#"="#)?;
             stringifier.write_str_name_quoted(&t.name)?;
             let nodes = &t.content;
-            if nodes.len() > 0 {
+            if !is_children_empty(nodes) {
                 stringifier.write_str(r#">"#)?;
                 for node in nodes {
                     node.stringify_write(stringifier)?;
@@ -162,6 +162,8 @@ fn is_children_empty(children: &[Node]) -> bool {
     for n in children {
         match n {
             Node::Comment(..) => {}
+            // (a text that is printed as nothing, like `{{ "" }}`, leaves no child behind either)
+            Node::Text(value) if is_empty_value(value) => {}
             Node::Element(..) | Node::Text(..) | Node::UnknownMetaTag(..) => {
                 return false;
             }
@@ -173,7 +175,10 @@ fn is_children_empty(children: &[Node]) -> bool {
 fn is_empty_value(value: &Value) -> bool {
     match value {
         Value::Static { value, .. } => value.is_empty(),
-        Value::Dynamic { .. } => false,
+        // `{{ "" }}` is printed as empty text, which reads back as an empty static value
+        Value::Dynamic { expression, .. } => {
+            matches!(&**expression, Expression::LitStr { value, .. } if value.is_empty())
+        }
     }
 }
 
